@@ -289,6 +289,11 @@ class ScalarFuncs:
     @_scalar_func_decorator
     def sum(cur_sum, next_val, count):
         if count:
+            if is_null(cur_sum):
+                # once null, always null (NaN does this by itself, NaT has to be kept)
+                return cur_sum, count + 1
+            if is_null(next_val):
+                return next_val, count + 1
             return cur_sum + next_val, count + 1
         else:
             return next_val, count + 1
